@@ -37,6 +37,13 @@ func pick(r *rand.Rand, xs []string) string { return xs[r.Intn(len(xs))] }
 
 // Operand draws a 64-bit operand from classes that matter for the hi/lo split.
 func Operand(r *rand.Rand) uint64 {
+	if r.Intn(8) == 0 {
+		// one half at an extreme, the other arbitrary or near an extreme: negative numbers seen as
+		// unsigned (AT_FDCWD = -100), multiples of 2^32, values just below them
+		hi := []uint32{0, 1, 0x7FFFFFFF, 0x80000000, 0xFFFFFFFE, 0xFFFFFFFF, r.Uint32()}[r.Intn(7)]
+		lo := []uint32{0, 1, 0x7FFFFFFF, 0x80000000, 0xFFFFFFFE, 0xFFFFFFFF, 0xFFFFFF9C, r.Uint32()}[r.Intn(8)]
+		return uint64(hi)<<32 | uint64(lo)
+	}
 	switch r.Intn(12) {
 	case 0:
 		return 0
